@@ -173,7 +173,9 @@ C16_preserved(G) ==
 C16_pure(G) ==
   \A m \in 1..Len(G.members) :
      /\ \A i \in 1..Len(Fin(G, m).pure) :
-          Fin(G, m).pure[i][1] = "evaluate_ctx_unchanged" => Fin(G, m).pure[i][2] = "same"
+          /\ Fin(G, m).pure[i][1] = "evaluate_ctx_unchanged" => Fin(G, m).pure[i][2] = "same"
+          \* a publish of one transition does not change the context its sibling transitions are evaluated against
+          /\ Fin(G, m).pure[i][1] = "sibling_sees_d" => Fin(G, m).pure[i][2] = "dict:{keep=int:1}"
      \* the stored initial context is the same after every event
      /\ \A i, j \in 1..Len(Fin(G, m).ctx0) : Fin(G, m).ctx0[i] = Fin(G, m).ctx0[j]
 (* recorded context snapshots only grow: after every event the earlier list is a prefix of the later *)
@@ -184,6 +186,11 @@ C16_hidden(G) ==
   \A m \in 1..Len(G.members) :
      /\ \A i \in 1..Len(Fin(G, m).hidden) : Fin(G, m).hidden[i][2] = << >>
      /\ \A i \in 1..Len(Fin(G, m).priv) : Fin(G, m).priv[i][3] = "rejected"
+
+(* C19 on the data-path host (nested values, publishes over publishes): the query is pure *)
+C19_query_idem(G) ==
+  \A m \in 1..Len(G.members) : \A i \in 1..Len(Fin(G, m).pure) :
+     Fin(G, m).pure[i][1] = "query_idem" => Fin(G, m).pure[i][2] = "same"
 
 (* C15: a single-fault mutant must be reported in the expected category at the expected position *)
 C15_reported(G) ==
@@ -210,7 +217,7 @@ Rel(G) ==
     [] G.kind = "seed" -> FG("C19_same", C19_same(G))
     [] G.kind = "shorthand" -> FG("C20_same", C20_same(G)) \cup FG("C20_denote", C20_denote(G))
     [] G.kind = "datapath" -> FG("C16_preserved", C16_preserved(G)) \cup FG("C16_pure", C16_pure(G) /\ SnapshotsStable(G))
-                              \cup FG("C16_hidden", C16_hidden(G))
+                              \cup FG("C16_hidden", C16_hidden(G)) \cup FG("C19_query_idem", C19_query_idem(G))
     [] G.kind = "snapshots" -> FG("C18_snapshots", SnapshotsStable(G))
     [] G.kind = "rerun" -> FG("C17_converge", C17_converge(G))
     [] OTHER -> {"unknown_group_kind"}
